@@ -10,6 +10,17 @@ Definition eval_ok (c : cfg) (dx dy : Z) (s : segment) (k : Z) : Prop :=
   (exists t, seg_eval c s k = t + sg_icpt s /\ 0 <= t /\ ev_close dx dy (k - sg_key s) t)
   \/ (2 ^ 32 <= seg_eval c s k /\ 2 ^ 32 * dx <= dy * (k - sg_key s)).
 
+(* the same interface with one more way out: the computed and the exact value are both at or above a
+   threshold T that the caller knows to be at or above the cap min(., next intercept) of the level
+   (T = level size + eps in level_query_split).  eval_ok is the special case where that disjunct is
+   not needed; for Floating = float it is what holds in the zone [2^22, 2^33) of exact positions where
+   the product is neither within 1/2 of the exact value nor known to reach 2^32 (FloatOkCap.v). *)
+Definition eval_ok_cap (T : Z) (c : cfg) (dx dy : Z) (s : segment) (k : Z) : Prop :=
+  eval_ok c dx dy s k \/ (T <= seg_eval c s k /\ T * dx <= dy * (k - sg_key s)).
+
+Lemma eval_ok_cap_of T c dx dy s k : eval_ok c dx dy s k -> eval_ok_cap T c dx dy s k.
+Proof. intros H. left. exact H. Qed.
+
 (* |dy/dx * (x - first) + icpt - y| <= eps + 1/2 *)
 Definition close_at (eps dx dy first icpt : Z) (p : Z * Z) : Prop :=
   2 * Z.abs (dy * (fst p - first) + (icpt - snd p) * dx) <= (2 * eps + 1) * dx.
@@ -34,15 +45,20 @@ Proof.
   nia.
 Qed.
 
-Lemma far_upper eps dx dy first icpt p k :
+Lemma far_upper_T T eps dx dy first icpt p k :
   0 < dx -> 0 <= dy -> k <= fst p -> close_at eps dx dy first icpt p ->
-  2 ^ 32 * dx <= dy * (k - first) -> 2 ^ 32 + icpt <= snd p + eps.
+  T * dx <= dy * (k - first) -> T + icpt <= snd p + eps.
 Proof.
   destruct p as [xp yp]. unfold close_at. cbn [fst snd]. intros Hdx Hdy Hk Hc Hf.
   assert (Hm : dy * (k - first) <= dy * (xp - first)) by nia.
-  assert (2 * dx * (2 ^ 32 + icpt) < 2 * dx * (yp + eps + 1)) by nia.
+  assert (2 * dx * (T + icpt) < 2 * dx * (yp + eps + 1)) by nia.
   nia.
 Qed.
+
+Lemma far_upper eps dx dy first icpt p k :
+  0 < dx -> 0 <= dy -> k <= fst p -> close_at eps dx dy first icpt p ->
+  2 ^ 32 * dx <= dy * (k - first) -> 2 ^ 32 + icpt <= snd p + eps.
+Proof. exact (far_upper_T (2 ^ 32) eps dx dy first icpt p k). Qed.
 
 Lemma eval_nonneg c dx dy s k : eval_ok c dx dy s k -> 0 <= sg_icpt s -> 0 <= seg_eval c s k.
 Proof. intros [(t & -> & Ht & _)|[H _]] Hi; lia. Qed.
@@ -64,6 +80,29 @@ Proof.
   intros [(t & -> & Ht & Hc)|[H Hf]] Hdx Hdy Hk Hcl Hcap Hi.
   - pose proof (ev_upper eps dx dy (sg_key s) (sg_icpt s) p k t Hdx Hdy Hk Hcl Hc). lia.
   - pose proof (far_upper eps dx dy (sg_key s) (sg_icpt s) p k Hdx Hdy Hk Hcl Hf). lia.
+Qed.
+
+(* the three consumers again, for eval_ok_cap *)
+Lemma eval_cap_nonneg T c dx dy s k : eval_ok_cap T c dx dy s k -> 0 <= T -> 0 <= sg_icpt s -> 0 <= seg_eval c s k.
+Proof. intros [H|[H _]] HT Hi; [exact (eval_nonneg c dx dy s k H Hi) | lia]. Qed.
+
+Lemma eval_cap_lower T c eps dx dy s k p :
+  eval_ok_cap T c dx dy s k -> 0 < dx -> 0 <= dy -> fst p <= k ->
+  close_at eps dx dy (sg_key s) (sg_icpt s) p -> snd p - eps - 1 <= 2 ^ 32 -> snd p - eps - 1 <= T ->
+  snd p - eps - 1 <= seg_eval c s k.
+Proof.
+  intros [H|[H _]] Hdx Hdy Hk Hcl Hb HbT; [|lia].
+  exact (eval_lower c eps dx dy s k p H Hdx Hdy Hk Hcl Hb).
+Qed.
+
+Lemma eval_cap_upper_cap T c eps dx dy s k p cap :
+  eval_ok_cap T c dx dy s k -> 0 < dx -> 0 <= dy -> k <= fst p ->
+  close_at eps dx dy (sg_key s) (sg_icpt s) p -> cap < 2 ^ 32 -> cap <= T -> 0 <= sg_icpt s ->
+  Z.min (seg_eval c s k) cap <= snd p + eps.
+Proof.
+  intros [H|[H Hf]] Hdx Hdy Hk Hcl Hcap HcapT Hi.
+  - exact (eval_upper_cap c eps dx dy s k p cap H Hdx Hdy Hk Hcl Hcap Hi).
+  - pose proof (far_upper_T T eps dx dy (sg_key s) (sg_icpt s) p k Hdx Hdy Hk Hcl Hf). lia.
 Qed.
 
 (* a flat segment (slope 0): the interface says the value is the intercept *)
@@ -112,14 +151,14 @@ Lemma hd_In_ne (b : list (Z * Z)) : b <> [] -> In (hd (0, 0) b) b.
 Proof. destruct b; [contradiction|]. left. reflexivity. Qed.
 
 Section Level.
-  Variables (c : cfg) (eps dx dy k cap : Z) (s : segment).
+  Variables (c : cfg) (eps dx dy k cap T : Z) (s : segment).
   Variables (g1 g2 : list (list (Z * Z))) (b : list (Z * Z)).
   Hypothesis Hincr : incr (concat g1 ++ b ++ concat g2).
   Hypothesis Hb : b <> [].
   Hypothesis Hdx : 0 < dx.
   Hypothesis Hdy : 0 <= dy.
   Hypothesis Hclose : Forall (close_at eps dx dy (sg_key s) (sg_icpt s)) b.
-  Hypothesis Hev : eval_ok c dx dy s k.
+  Hypothesis Hev : eval_ok_cap T c dx dy s k.
   Hypothesis Hkey : fst (hd (0, 0) b) <= k.
   Hypothesis Hnext : next_ok eps k cap g2.
 
@@ -148,7 +187,7 @@ Section Level.
     cbn [app] in Hi, Hq. destruct (incr_hd_min a _ q Hi Hq). lia.
   Qed.
 
-  Hypothesis Hsmall : forall p, In p b -> snd p - eps - 1 <= 2 ^ 32.
+  Hypothesis Hsmall : forall p, In p b -> snd p - eps - 1 <= 2 ^ 32 /\ snd p - eps - 1 <= T.
 
   (* a point of the block at or before k whose rank is at least that of Q *)
   Lemma block_point Q : In Q (concat g1 ++ b ++ concat g2) -> fst Q <= k ->
@@ -168,7 +207,7 @@ Section Level.
   Proof.
     intros HQ Hx Hcap. destruct (block_point Q HQ Hx) as (P & HP & HPx & HPy).
     assert (Hclp : close_at eps dx dy (sg_key s) (sg_icpt s) P) by (rewrite Forall_forall in Hclose; auto).
-    pose proof (eval_lower c eps dx dy s k P Hev Hdx Hdy HPx Hclp (Hsmall P HP)) as Hl.
+    pose proof (eval_cap_lower T c eps dx dy s k P Hev Hdx Hdy HPx Hclp (proj1 (Hsmall P HP)) (proj2 (Hsmall P HP))) as Hl.
     apply Z.min_glb; [lia|].
     pose proof (g2_after P) as HA. clear Hl Hclp HQ.
     destruct g2 as [|b' g2']; [apply Hcap; reflexivity|].
@@ -179,14 +218,14 @@ Section Level.
   Qed.
 
   Lemma level_upper Q' : In Q' (concat g1 ++ b ++ concat g2) -> k <= fst Q' ->
-    cap < 2 ^ 32 -> 0 <= sg_icpt s ->
+    cap < 2 ^ 32 -> cap <= T -> 0 <= sg_icpt s ->
     Z.min (seg_eval c s k) cap <= snd Q' + eps.
   Proof.
-    intros HQ Hx Hcap Hi. apply in_app_or in HQ. destruct HQ as [HQ|HQ].
+    intros HQ Hx Hcap HcapT Hi. apply in_app_or in HQ. destruct HQ as [HQ|HQ].
     - destruct (g1_before Q' _ HQ hd_In_b). lia.
     - apply in_app_or in HQ. destruct HQ as [HQ|HQ].
       + assert (Hclp : close_at eps dx dy (sg_key s) (sg_icpt s) Q') by (rewrite Forall_forall in Hclose; auto).
-        exact (eval_upper_cap c eps dx dy s k Q' cap Hev Hdx Hdy Hx Hclp Hcap Hi).
+        exact (eval_cap_upper_cap T c eps dx dy s k Q' cap Hev Hdx Hdy Hx Hclp Hcap HcapT Hi).
       + destruct (g2_gt Q' HQ). lia.
   Qed.
 End Level.
@@ -273,7 +312,7 @@ Theorem level_query_split c kt eps data (g1 g2 : list (list (Z * Z))) b cs (c2 :
   data <> [] -> sortedb data = true -> nowrap kt data -> zlen data < 2 ^ 32 -> 0 <= eps ->
   concat (g1 ++ b :: g2) = fed_spec kt data ->
   line_ok eps cs b -> seg_of c cs s -> Forall2 (line_ok eps) c2 g2 -> Forall2 (seg_of c) c2 S2 ->
-  eval_ok c (fst (slope_of cs)) (snd (slope_of cs)) s k ->
+  eval_ok_cap (zlen data + eps) c (fst (slope_of cs)) (snd (slope_of cs)) s k ->
   sg_key s <= k ->
   match S2 with s' :: _ => k < sg_key s' /\ cap = sg_icpt s' | [] => cap = zlen data end ->
   let r := lb data k in
@@ -292,21 +331,26 @@ Proof.
   { intros p. rewrite <- Hcat, concat_app. cbn [concat]. reflexivity. }
   assert (Hrank : forall p, In p (concat g1 ++ b ++ concat g2) -> 0 <= snd p <= n).
   { intros p Hp. apply Hfed in Hp. apply (spec_only kt data Hne Hs Hw) in Hp. exact (fed_kind_rank data p Hp). }
-  assert (Hnext : next_ok eps k cap g2 /\ 0 <= cap < 2 ^ 32 /\ (g2 = [] -> cap = n)).
+  assert (Hnext : next_ok eps k cap g2 /\ 0 <= cap < 2 ^ 32 /\ (g2 = [] -> cap = n) /\ cap <= n + eps).
   { inversion Hl2 as [|cs' b' c2' g2' Hlo' Hl2' E1 E2]; subst.
-    - inversion Hs2; subst. cbn [next_ok]. pose proof (zlen_ge0 data). fold n in H. repeat split; try lia. 
+    - inversion Hs2; subst. cbn [next_ok]. pose proof (zlen_ge0 data). fold n in H. repeat split; try lia.
     - inversion Hs2 as [|cs'' s' c2'' S2' Hso' Hs2' E3 E4]; subst. destruct Hnx as [Hk1 ->].
       destruct (line_ok_close c eps cs' b' s' Hlo' Hso') as (Hdx' & _ & Hk' & Hcl').
       destruct (seg_of_cseg_spec c cs' s' Hso') as (_ & _ & Hicpt').
       assert (Hb' : b' <> []) by (destruct Hlo'; assumption).
-      split; [|split; [exact Hicpt' | discriminate]]. cbn [next_ok]. split; [exact Hb'|].
-      rewrite <- Hk'. split; [exact Hk1|].
+      assert (Hrk' : snd (hd (0, 0) b') <= n).
+      { assert (Hin' : In (hd (0, 0) b') (concat g1 ++ b ++ concat (b' :: g2'))).
+        { apply in_or_app. right. apply in_or_app. right. cbn [concat]. apply in_or_app. left.
+          apply hd_In_ne. exact Hb'. }
+        pose proof (Hrank _ Hin'). lia. }
       destruct b' as [|[x y] t]; [contradiction|]. cbn [hd fst snd] in *.
       apply Forall_inv in Hcl'. rewrite Hk' in Hcl'.
-      exact (close_at_first eps _ _ x (sg_icpt s') y Hdx' Hcl'). }
-  destruct Hnext as (Hnext & Hcap & Hcapn).
+      pose proof (close_at_first eps _ _ x (sg_icpt s') y Hdx' Hcl') as Hcf.
+      split; [|split; [exact Hicpt' | split; [discriminate | lia]]]. cbn [next_ok hd fst snd]. split; [exact Hb'|].
+      rewrite <- Hk'. split; [exact Hk1 | exact Hcf]. }
+  destruct Hnext as (Hnext & Hcap & Hcapn & HcapT).
   rewrite Hk0 in Hkey.
-  assert (Hsmall : forall p, In p b -> snd p - eps - 1 <= 2 ^ 32).
+  assert (Hsmall : forall p, In p b -> snd p - eps - 1 <= 2 ^ 32 /\ snd p - eps - 1 <= n + eps).
   { intros p Hp. assert (Hp' : In p (concat g1 ++ b ++ concat g2)) by (apply in_or_app; right; apply in_or_app; left; exact Hp).
     pose proof (Hrank p Hp'). lia. }
   pose proof (r_range data k) as Hrr. fold r n in Hrr.
@@ -322,10 +366,10 @@ Proof.
   destruct (claimA kt data Hne Hs Hw k Hk00) as (Q & HQ & HQx & HQy & HQp). fold r in HQy, HQp.
   apply Hfed in HQ.
   assert (Hlow : snd Q - eps - 1 <= pos).
-  { apply (level_lower c eps _ _ k cap s g1 g2 b Hincr Hb Hdx Hdy Hcl Hev Hkey Hnext Hsmall Q HQ HQx).
+  { apply (level_lower c eps _ _ k cap (n + eps) s g1 g2 b Hincr Hb Hdx Hdy Hcl Hev Hkey Hnext Hsmall Q HQ HQx).
     intros E. rewrite (Hcapn E). pose proof (Hrank Q HQ). lia. }
   assert (Hpos0 : 0 <= pos).
-  { unfold pos. apply Z.min_glb; [|lia]. apply (eval_nonneg c _ _ s k Hev). lia. }
+  { unfold pos. apply Z.min_glb; [|lia]. apply (eval_cap_nonneg _ c _ _ s k Hev); lia. }
   split; [split; [lia|]|split; [intros Hin; specialize (HQp Hin); lia | exact Hpos0]].
   destruct (Z.eq_dec r n) as [En|En].
   - (* k beyond the last key: the cap decides *)
@@ -337,7 +381,7 @@ Proof.
     pose proof (Hrank _ Hin). lia.
   - destruct (claimB kt data Hne Hs Hw k ltac:(fold n r; lia)) as [HB HBk]. fold r in HB, HBk.
     apply Hfed in HB.
-    pose proof (level_upper c eps _ _ k cap s g1 g2 b Hincr Hb Hdx Hdy Hcl Hev Hkey Hnext (dat data r, r) HB HBk ltac:(lia) ltac:(lia)) as Hu.
+    pose proof (level_upper c eps _ _ k cap (n + eps) s g1 g2 b Hincr Hb Hdx Hdy Hcl Hev Hkey Hnext (dat data r, r) HB HBk ltac:(lia) HcapT ltac:(lia)) as Hu.
     cbn [snd] in Hu. exact Hu.
 Qed.
 Print Assumptions level_query_split.
